@@ -6,6 +6,7 @@ from . import driver, core
 _PROG = {}
 MAX_REPLAYS = 16
 MAX_PER_MSG = 2
+N_WITNESS = 3
 
 def get_prog(path):
     p = _PROG.get(path)
@@ -58,6 +59,8 @@ def _run_case(job):
             out['unsupported'].append(r['info'])
         if r.get('inconclusive'):
             out['inconclusive'] += r['inconclusive']
+        if r['status'] == 'ok' and r.get('model') is not None and 'witness' not in out:
+            out['witness'] = {'tape': r['model'], 'labels': [e[1] for e in ev if e[0] == 'reach']}
         if out['sample_path'] is None and r['status'] == 'ok' and ev:
             out['sample_path'] = {'decisions': len(r['trace']), 'events': [list(e) for e in ev[:6]]}
     out['labels'] = dict(labels)
@@ -140,6 +143,23 @@ def run_check(prop, cases, tier, seed, level='model_checking', functions=(), bou
                 inconc.append('%s: ENGINE-MISMATCH: model does not replay natively: %s (see %s)' % (res['case'], msg, d))
         if res.get('fn') and res['reached'] == 0 and not res['violations'] and next(c for c in cases if c.name == res['case']).expect_reach:
             broken.append('%s: vacuous: no path reached an assertion/reach label (%s)' % (res['case'], res['status']))
+    # translator validation: replay reachability witnesses (models of passing paths) natively; the
+    # native run must reach the same label without any assertion failure or panic
+    import random as _random
+    rng = _random.Random(seed)
+    wit = [r for r in results if 'error' not in r and r.get('witness')]
+    rng.shuffle(wit)
+    wit_ok = 0
+    for res in wit[:N_WITNESS]:
+        d = driver.write_replay(prop, 'witness_' + re.sub(r'[^A-Za-z0-9_.-]', '_', res['case']), res['pkg'], _replay_fn(res), res['witness']['tape'],
+                                note='%s reachability witness of case %s' % (prop, res['case']))
+        rep, out = driver.run_replay(d)
+        replays += 1
+        open(os.path.join(d, 'replay.log'), 'w').write(out if isinstance(out, str) else str(out))
+        if rep is None or rep or not all(('REACHED ' + l) in out for l in res['witness']['labels']):
+            inconc.append('%s: ENGINE-MISMATCH: passing path does not replay natively (see %s)' % (res['case'], d))
+        else:
+            wit_ok += 1
     for (kind, msg), cnt in per_msg.items():
         print('  violation class: %dx %s: %s' % (cnt, kind, msg))
     for l in known_lines:
@@ -189,6 +209,7 @@ def run_check(prop, cases, tier, seed, level='model_checking', functions=(), bou
         'inconclusive': inconc[:50],
         'known_findings_matched': sorted(seen_known),
         'violations_not_replayed_beyond_cap': unreplayed,
+        'witness_paths_replayed_natively_ok': wit_ok,
         'encoding_source': os.path.basename(ssa) + ' (regenerated from /repo working tree on this run)',
     }
     if extra_cov:
